@@ -6,7 +6,7 @@ import json, os, sys
 V = os.path.dirname(os.path.dirname(os.path.abspath(__file__)))
 
 PENDING_REASON = "no check registered yet in this revision: model/theorems/harness for this property are still being built (DESIGN.md section 8); nothing is claimed for it"
-HOOK_COMMITS = ["2863da9"]
+HOOK_COMMITS = ["2863da9", "240555a"]
 
 
 def main():
